@@ -875,7 +875,21 @@ std::size_t CppCheck::calculateHash(const Preprocessor& preprocessor, const std:
         toolinfo << a.args;
     }
     toolinfo << mSettings.premiumArgs;
-    // TODO: do we need to add more options?
+    // the remaining options that can change the results of the analysis
+    toolinfo << ' ' << mSettings.certainty.intValue();
+    toolinfo << ' ' << mSettings.checks.intValue();
+    for (const std::string &u : mSettings.userUndefs)
+        toolinfo << ' ' << u;
+    toolinfo << ' ' << mSettings.standards.getC() << ' ' << mSettings.standards.getCPP();
+    toolinfo << ' ' << mSettings.standards.stdValueC << ' ' << mSettings.standards.stdValueCPP;
+    const Platform &platform = mSettings.platform;
+    toolinfo << ' ' << platform.toString() << ' ' << static_cast<int>(platform.char_bit) << ' ' << static_cast<int>(platform.defaultSign)
+             << ' ' << platform.sizeof_bool << ' ' << platform.sizeof_short << ' ' << platform.sizeof_int << ' ' << platform.sizeof_long
+             << ' ' << platform.sizeof_long_long << ' ' << platform.sizeof_float << ' ' << platform.sizeof_double
+             << ' ' << platform.sizeof_long_double << ' ' << platform.sizeof_wchar_t << ' ' << platform.sizeof_size_t
+             << ' ' << platform.sizeof_pointer;
+    for (const std::string &l : mSettings.libraries)
+        toolinfo << ' ' << l;
     mSuppressions.nomsg.dump(toolinfo, filePath);
     return preprocessor.calculateHash(toolinfo.str());
 }
